@@ -5,7 +5,7 @@
    CNAME/other-data exclusivity.  Proofs: Proofs/Txn*.v. *)
 From DV Require Import Base.Prelude Model.NameM Model.TxnM.
 From DV Require Import Proofs.NameValid Proofs.TxnName Proofs.TxnStore Proofs.TxnLow Proofs.TxnSim Proofs.TxnThm
-                       Proofs.TxnIrrel Proofs.TxnSpec Proofs.TxnInv Proofs.TxnItems.
+                       Proofs.TxnIrrel Proofs.TxnSpec Proofs.TxnInv Proofs.TxnItems Proofs.TxnAbs.
 Open Scope Z_scope.
 
 (* Any history of transactions - every operation and argument form, manual commit/rollback or with-block,
@@ -17,6 +17,27 @@ Theorem refines :
   Forall2 (ROut (RP c)) (impl_hist c h z) (spec_hist c h l).
 Proof. exact refines_hist. Qed.
 Print Assumptions refines.
+
+(* The same with the abstraction function: a well-formed node map z (no duplicate key, validated keys, no
+   empty node, one rdataset per type) denotes the reference store `abs c z`; for every such zone,
+   abs (exec_impl h z) ~ exec_spec h (abs z) with equal results, and well-formedness is preserved. *)
+Theorem refines_from_any_wellformed_zone :
+  forall c h z, wfc c -> Forall spec_valid h -> zwf c z ->
+  Forall2 (fun x y => fst x = fst y /\ zwf c (snd x) /\ store_equiv c (abs c (snd x)) (snd y))
+          (impl_hist c h z) (spec_hist c h (abs c z)).
+Proof. exact refines_abs. Qed.
+Print Assumptions refines_from_any_wellformed_zone.
+
+Theorem wellformed_zone_denotes_its_abstraction :
+  forall c m, wfc c -> zwf c m -> RP c m (abs c m).
+Proof. exact RP_abs. Qed.
+Print Assumptions wellformed_zone_denotes_its_abstraction.
+
+Theorem no_empty_node_under_any_key :
+  forall c h z, wfc c -> Forall spec_valid h -> zwf c z ->
+  Forall (fun x => Forall (fun kn => snd kn <> []) (snd x)) (impl_hist c h z).
+Proof. exact no_empty_node_anywhere. Qed.
+Print Assumptions no_empty_node_under_any_key.
 
 (* "related" for an observer: Zone.get_node(name) shows, for every owner name in either spelling, exactly
    the rdatasets of the reference store for that owner *)
@@ -316,4 +337,11 @@ Example ex_law_hyps :
   exists s', r_put ex_cfg (mkRst [] false) ex_www ex_a = Ok s'.
 Proof.
   split; [intros a; apply node_wf_nil|]. split; [reflexivity|]. split; [reflexivity|]. eexists. reflexivity.
+Qed.
+
+Example ex_zwf : zwf ex_cfg [] /\ zwf ex_cfg [(ex_www, [ex_a])].
+Proof.
+  split; [apply zwf_nil|]. split; [cbn; auto|]. constructor; [|constructor]. cbn [fst snd]. split.
+  - split; [repeat split; [repeat constructor; cbn; lia|cbn; lia|constructor]|reflexivity].
+  - split; [discriminate|]. split; [repeat constructor; intros []|repeat constructor].
 Qed.
